@@ -66,6 +66,18 @@ Theorem C10_string_of_cast : forall size signed names vals x, (1 <= size <= 8)%n
 Proof. exact string_of_cast. Qed.
 Print Assumptions C10_string_of_cast.
 
+(* the same for EVERY integer x, in or out of the base type's range: ffi.string(ffi.cast('enum e', x)) is the first
+   declared enumerator whose value is the WRAPPED x (what gcc's conversion to the underlying type gives), or its
+   decimal text *)
+Theorem C10_string_of_cast_all : forall size signed names vals x, (1 <= size <= 8)%nat ->
+  enum_cast_string size signed names vals x =
+  match first_name names vals (wrap (Z.of_nat size) signed x) with
+  | Some nm => nm
+  | None => decimal (wrap (Z.of_nat size) signed x)
+  end.
+Proof. exact string_of_cast_all. Qed.
+Print Assumptions C10_string_of_cast_all.
+
 (* the two encodings of (size, signedness) into a primitive index agree on the complete domain
    {1,2,4,8} x {0,1}: EnumExpr.as_python_expr (out-of-line ABI) and _cffi_prim_int (API mode) *)
 Theorem C10_encodings_agree : forall size sg, In size [1; 2; 4; 8] -> In sg [0; 1] ->
